@@ -24,7 +24,7 @@ COPY_FUNCS = {'list', 'tuple', 'sorted', 'reversed', 'iter'}
 
 
 class LObj:
-    __slots__ = ('count', 'ordered_of', 'fresh', 'attr', 'filled_by')
+    __slots__ = ('count', 'ordered_of', 'fresh', 'attr', 'filled_by', 'lazy_src')
 
     def __init__(self, count=0, ordered_of=frozenset(), fresh=False, attr=None):
         self.count = count
@@ -32,10 +32,12 @@ class LObj:
         self.fresh = fresh                         # created empty; gets its order from the loop that fills it
         self.attr = attr                           # the list *is* self.<attr>
         self.filled_by = None
+        self.lazy_src = None                       # a generator / filter object: the id of the list it reads *while it is consumed*
 
     def clone(self):
         o = LObj(self.count, self.ordered_of, self.fresh, self.attr)
         o.filled_by = self.filled_by
+        o.lazy_src = self.lazy_src
         return o
 
 
@@ -157,7 +159,7 @@ class Interp:
                 out.append((s, self._copy_of(s, v)))
             return out
         if isinstance(e, (ast.ListComp, ast.GeneratorExp)) and len(e.generators) == 1:
-            return self._comp(st, e, depth)
+            return self._comp(st, e, depth, lazy=isinstance(e, ast.GeneratorExp))
         if isinstance(e, (ast.ListComp, ast.GeneratorExp)) and len(e.generators) == 2 and isinstance(e.generators[0].target, ast.Name) \
                 and not e.generators[0].ifs and isinstance(e.generators[1].iter, ast.Name) and e.generators[1].iter.id == e.generators[0].target.id:
             # [x for lst in (L1, L2, ...) for x in lst if c]: the comprehension over L1 + L2 + ...
@@ -186,6 +188,8 @@ class Interp:
                     c = self._copy_of(s, v)
                     if c[0] == 'list' and f.id in ('sorted', 'reversed'):
                         s.objs[c[1]].ordered_of = frozenset()
+                    if c[0] == 'list' and v[0] == 'list' and f.id in ('reversed', 'iter'):
+                        s.objs[c[1]].lazy_src = s.objs[v[1]].lazy_src or v[1]       # iterators: not copies
                     out.append((s, c))
                 return out
             if isinstance(f, ast.Attribute) and f.attr == 'copy' and not e.args:
@@ -194,7 +198,7 @@ class Interp:
                 lam = e.args[0]
                 comp = ast.ListComp(elt=ast.Name(lam.args.args[0].arg, ast.Load()),
                                     generators=[ast.comprehension(target=ast.Name(lam.args.args[0].arg, ast.Store()), iter=e.args[1], ifs=[lam.body], is_async=0)])
-                return self._comp(st, ast.copy_location(comp, e), depth)
+                return self._comp(st, ast.copy_location(comp, e), depth, lazy=True)     # filter() reads its source while it is consumed
             if ftxt in ('itertools.chain', 'chain'):
                 be = None
                 for a in e.args:
@@ -222,7 +226,20 @@ class Interp:
             return ('list', s.new_obj(count=o.count, ordered_of=ordered))
         return ('opaque', None)
 
-    def _comp(self, st, e, depth, src_value=None):
+    def _comp(self, st, e, depth, src_value=None, lazy=False):
+        out = self._comp_eager(st, e, depth, src_value)
+        if lazy and src_value is None:
+            # a generator expression / filter object is not a copy: it walks its source list while the consumer runs, so a consumer
+            # that edits the source list skips or repeats elements (the list value produced here stands for the elements it *would* yield)
+            for s, v in out:
+                if v[0] == 'list':
+                    for s0, src in self.ev(s.clone(), e.generators[0].iter, depth):
+                        if src[0] == 'list':
+                            s.objs[v[1]].lazy_src = s.objs[src[1]].lazy_src or src[1]
+                        break
+        return out
+
+    def _comp_eager(self, st, e, depth, src_value=None):
         gen = e.generators[0]
         out = []
         for s, src in ([(st, src_value)] if src_value is not None else self.ev(st, gen.iter, depth)):
@@ -425,7 +442,7 @@ class Interp:
 
     def _touch(self, s, oid, how, line):
         for it, loop in self.loop_now:
-            if it == oid:
+            if it == oid or (it in s.objs and s.objs[it].lazy_src == oid):
                 s.log.append(('mutate-while-iterating', f'{how} on the list being iterated', line))
         o = s.objs[oid]
         if o.attr is not None:
